@@ -161,3 +161,113 @@ decode2 = Contract("C06.AlphabetEncoding._decode[2 symbolic symbols]", target=la
                    canaries=[("lookup instead of alphabet", "return self._alphabet[array]", "return self._lookup[array]")])
 
 CONTRACTS = [init1, init2, init4, encode2, decode2]
+
+
+# --- numeric encodings by offset (DigitEncoding, QualityEncoding, CigarEncoding): DigitEncodingFactory._encode / _decode --------------------
+# for EVERY offset (self._min_code is symbolic): encode subtracts it, decode adds it, element by element; so decode(encode(x)) = x.
+def _DEF():
+    from bionumpy.encodings import DigitEncodingFactory
+    return DigitEncodingFactory
+
+
+def _setup_num(ctx):
+    st = St()
+    st.n, st.m = z3.Int("n"), z3.Int("min_code")
+    st.x = z3.Function("x", z3.IntSort(), z3.IntSort())
+    st.selfv = SRec(_DEF(), _min_code=st.m)
+    st.args = [SArr.fresh(st.n, lambda i: st.x(I(i)))]
+    return st
+
+
+num_encode = Contract("C06.DigitEncodingFactory._encode[any offset]", target=lambda: _DEF()._encode, setup=_setup_num,
+                      requires=lambda ctx, st: [st.n >= 0],
+                      ensures=lambda ctx, st, ret: [("length", I(ret.length) == st.n),
+                                                    ("code.is.byte.minus.offset", Forall(lambda i: Implies(in_range(i, st.n), I(ret.at(i)) == st.x(i) - st.m))),
+                                                    ("argument.not.modified", st.args[0].buf.at is st.args0_at)],
+                      canaries=[("offset added", "return bytes_array - self._min_code", "return bytes_array + self._min_code")])
+num_decode = Contract("C06.DigitEncodingFactory._decode[any offset]", target=lambda: _DEF()._decode, setup=_setup_num,
+                      requires=lambda ctx, st: [st.n >= 0],
+                      ensures=lambda ctx, st, ret: [("length", I(ret.length) == st.n),
+                                                    ("byte.is.code.plus.offset (inverse of _encode)", Forall(lambda i: Implies(in_range(i, st.n), I(ret.at(i)) == st.x(i) + st.m))),
+                                                    ("argument.not.modified", st.args[0].buf.at is st.args0_at)],
+                      canaries=[("off by one", "return digits + self._min_code", "return digits + self._min_code + 1")])
+_setup_num0 = _setup_num
+
+
+def _setup_num(ctx):
+    st = _setup_num0(ctx)
+    st.args0_at = st.args[0].buf.at
+    return st
+
+
+num_encode.setup = num_decode.setup = _setup_num
+CONTRACTS += [num_encode, num_decode]
+
+
+# --- re-targeting of already encoded data (as_encoded_array, the branch for an alphabet-encoded argument and an alphabet target) -----------------
+# For alphabets A_src, A_tgt given as lists of symbols of ANY lengths and any code array: if the call returns, the result carries the SAME codes
+# under the target encoding and every code that occurs denotes the same symbol in both alphabets (so the text is unchanged), and every code is a
+# valid code of the target.  Otherwise EncodingException.
+def _AEA():
+    import bionumpy.encoded_array as m
+    return m.as_encoded_array
+
+
+class _Alpha:
+    """an alphabet encoding object: get_alphabet() is a list of symbols (symbolic length and content)"""
+
+    def __init__(self, name, count, fn, base=False):
+        self.name, self.count, self.fn, self.base = name, count, fn, base
+
+    def getattr(self, ip, name, lineno):
+        me = self
+        if name == "get_alphabet":
+            class _GA:
+                def sym_call(self_, ip, args, kwargs, lineno):
+                    return SymList(me.count, lambda k: me.fn(I(k)))
+            return _GA()
+        if name == "is_base_encoding":
+            class _IB:
+                def sym_call(self_, ip, args, kwargs, lineno):
+                    return me.base
+            return _IB()
+        raise AttributeError(name)
+
+    def sym_hasattr(self, name):
+        return name in ("get_alphabet", "is_base_encoding")
+
+
+def _setup_rt(ctx):
+    from pyvc.core import SymList as _SL  # noqa
+    st = St()
+    st.n, st.ns, st.nt = z3.Int("n"), z3.Int("n_src_symbols"), z3.Int("n_tgt_symbols")
+    st.code, st.As, st.At = z3.Function("code", z3.IntSort(), z3.IntSort()), z3.Function("A_src", z3.IntSort(), z3.IntSort()), z3.Function("A_tgt", z3.IntSort(), z3.IntSort())
+    st.src, st.tgt = _Alpha("src", st.ns, st.As), _Alpha("tgt", st.nt, st.At)
+    st.raw = SArr.fresh(st.n, lambda i: st.code(I(i)))
+    st.s = SRec(_EA(), data=st.raw, encoding=st.src)
+    st.args = [st.s, st.tgt]
+    return st
+
+
+def _EA():
+    import bionumpy.encoded_array as m
+    return m.EncodedArray
+
+
+def _ens_rt(ctx, st, ret):
+    data = ret.get("data") if isinstance(ret, SRec) else ret
+    return [("same.codes", data is st.raw or (isinstance(data, SArr) and data.buf is st.raw.buf)),
+            ("target.encoding", (ret.get("encoding") if isinstance(ret, SRec) else getattr(ret, "enc", None)) is st.tgt),
+            ("every.code.that.occurs.denotes.the.same.symbol.in.both.alphabets",
+             Forall(lambda i: Implies(in_range(i, st.n), st.As(st.code(i)) == st.At(st.code(i))))),
+            ("every.code.is.a.code.of.the.target", Forall(lambda i: Implies(in_range(i, st.n), st.code(i) < st.nt)))]
+
+
+from pyvc.core import SymList    # noqa: E402
+retarget = Contract("C06.as_encoded_array[re-target alphabet -> alphabet]", target=_AEA, setup=_setup_rt,
+                    requires=lambda ctx, st: [st.n >= 1, st.ns >= 1, st.nt >= 1,
+                                              Forall(lambda i: Implies(in_range(i, st.n), And(st.code(i) >= 0, st.code(i) < st.ns)), triggers=[st.code], name="codes are codes of the source alphabet")],
+                    ensures=_ens_rt, raises={"EncodingException": lambda ctx, st: []},
+                    canaries=[("largest code not compared", "get_alphabet()[:m + 1] == target_encoding.get_alphabet()[:m + 1]", "get_alphabet()[:m] == target_encoding.get_alphabet()[:m]"),
+                              ("bound check dropped", "if not m < len(target_encoding.get_alphabet()):", "if False:")])
+CONTRACTS.append(retarget)
